@@ -27,9 +27,10 @@ var serverSide = []string{
 	"etcdserver: leader changed",
 	"etcdserver: no leader",
 	"etcdserver: not capable",
+	"i/o timeout", // the in-process redis (miniredis) starved of CPU: the client's read deadline fires
 }
 
-// IsEnvErr reports whether an error text names overload of the embedded etcd server itself
+// IsEnvErr reports whether an error text names overload of the embedded etcd server (or the in-process redis) itself
 // (never produced by core, never injected by the harness).
 func IsEnvErr(s string) bool {
 	for _, p := range serverSide {
